@@ -35,6 +35,26 @@ fn queries(tier: Tier) -> Vec<String> {
     ] {
         v.push(q.to_string());
     }
+    // unit-print family: every documented unit (first typeable name), value one and not one,
+    // alone, squared, as a denominator, in a product and in a quotient
+    for u in crate::tables::UNITS {
+        let Some(n) = u.names.iter().find(|n| crate::tables::typeable(n)) else { continue };
+        for val in ["1", "2", "0.5"] {
+            v.push(format!("{val} {n}"));
+        }
+        v.push(format!("1 {n}^2"));
+        v.push(format!("3 {n}^2"));
+        v.push(format!("1 / 1 {n}"));
+        v.push(format!("1 {n}/s"));
+        v.push(format!("2 {n}*K"));
+        v.push(format!("1 mol/{n}^3"));
+        if u.base.is_empty() == false || ["N", "J", "W", "Pa", "l", "V", "eV", "Hz"].contains(n) {
+            for pfx in ["k", "m", "M", "n"] {
+                v.push(format!("1 {pfx}{n}"));
+                v.push(format!("5 {pfx}{n}^2"));
+            }
+        }
+    }
     if tier == Tier::Thorough {
         for a in VALUES {
             for b in ["+", "-", "*", "/"] {
@@ -56,10 +76,18 @@ enum Item {
     Error(String),
 }
 
-fn expected(db: &anything::Db, q: &str, exact: bool) -> Option<Vec<Item>> {
+/// What the independent unit re-reader needs for one `Ok` line.
+struct LineInfo {
+    number: String,
+    parts: crate::obs::UnitParts,
+    value_is_one: bool,
+}
+
+fn expected(db: &anything::Db, q: &str, exact: bool) -> Option<(Vec<Item>, Vec<Option<LineInfo>>)> {
     let parsed = anything::parse(q).ok()?;
     let mut d = Vec::new();
     let mut out = Vec::new();
+    let mut infos = Vec::new();
     for r in anything::query(&parsed, db, Options::default(), &mut d) {
         match r {
             Ok(n) => {
@@ -77,6 +105,7 @@ fn expected(db: &anything::Db, q: &str, exact: bool) -> Option<Vec<Item>> {
                     spec.show_continuation = true;
                     s.push_str(&n.value.display(&spec).to_string());
                 }
+                let number = s.clone();
                 // a space and the unit when the unit has a numerator part
                 let parts = crate::obs::unit_parts(&n.unit);
                 if parts.iter().any(|p| p.1 > 0) {
@@ -84,11 +113,165 @@ fn expected(db: &anything::Db, q: &str, exact: bool) -> Option<Vec<Item>> {
                 }
                 s.push_str(&n.unit.display(!n.value.is_one()).to_string());
                 out.push(Item::Line(s));
+                infos.push(Some(LineInfo { number, value_is_one: crate::obs::rat_of(&n.value) == num::BigRational::one(), parts }));
             }
-            Err(e) => out.push(Item::Error(e.to_string())),
+            Err(e) => {
+                out.push(Item::Error(e.to_string()));
+                infos.push(None);
+            }
         }
     }
-    Some(out)
+    Some((out, infos))
+}
+
+// ---------------------------------------------------------------------------
+// Independent re-reading of a printed unit (the statement: "then a space and
+// the unit ..., the unit name pluralised only when the value is not one").
+// The printed text `a⋅b²/c⋅d³` is read with the harness's own vocabulary
+// table (never with the subject's parser) and must denote the unit the
+// library computed (same SI scale and base dimensions).
+
+fn superscript(c: char) -> Option<u32> {
+    "⁰¹²³⁴⁵⁶⁷⁸⁹".chars().position(|x| x == c).map(|p| p as u32)
+}
+
+/// English singular candidates of a (possibly plural) unit word.
+fn singulars(w: &str) -> Vec<String> {
+    let mut v = Vec::new();
+    if let Some(s) = w.strip_suffix("ies") {
+        v.push(format!("{s}y"));
+    }
+    if let Some(s) = w.strip_suffix("es") {
+        v.push(s.to_string());
+    }
+    if let Some(s) = w.strip_suffix('s') {
+        v.push(s.to_string());
+    }
+    if let Some(s) = w.strip_suffix("ia") {
+        v.push(format!("{s}ium"));
+    }
+    v.retain(|s| !s.is_empty());
+    v
+}
+
+/// (power-of-ten prefix, unit, is a plural form) for every single-unit reading of a printed word.
+fn word_candidates(word: &str) -> Vec<(i32, &'static crate::tables::UnitDef, bool)> {
+    let mut out = Vec::new();
+    for r in crate::units::readings_spans(word) {
+        if r.len() == 1 {
+            let (_, name, p, u) = &r[0];
+            let plural = singulars(name).iter().any(|s| u.names.contains(&s.as_str()));
+            out.push((*p, *u, plural));
+        }
+    }
+    // names the tool prints but does not read: `fl oz` for floz, the conventional symbol `g` for gforce
+    for (shown, name) in [("fl oz", "floz"), ("fl ozs", "floz"), ("g", "gforce")] {
+        if word == shown {
+            if let Some(u) = crate::tables::find_by_name(name) {
+                out.push((0, u, shown.ends_with("ozs")));
+            }
+        }
+    }
+    // a plural the vocabulary table does not list itself (`btus`)
+    for s in singulars(word) {
+        for r in crate::units::readings_spans(&s) {
+            if r.len() == 1 {
+                out.push((r[0].2, r[0].3, true));
+            }
+        }
+    }
+    out
+}
+
+/// Ok(true): judged and fine; Ok(false): the text is outside what the
+/// re-reader understands (not judged); Err: the printed unit is wrong.
+fn printed_unit_ok(text: &str, info: &LineInfo) -> Result<bool, String> {
+    use num::One;
+    let want = match crate::units::si_of(&num::BigRational::one(), &info.parts, true) {
+        Ok(si) => si,
+        Err(_) => return Ok(false),
+    };
+    // items: (word, signed power)
+    let mut items: Vec<(String, i64)> = Vec::new();
+    let (numer, denom) = match text.split_once('/') {
+        Some((a, b)) => (a, Some(b)),
+        None => (text, None),
+    };
+    for (side, sign) in [(Some(numer), 1i64), (denom, -1i64)] {
+        let Some(side) = side else { continue };
+        if side.is_empty() {
+            continue;
+        }
+        for it in side.split('⋅') {
+            let mut word = String::new();
+            let mut pow: Option<u32> = None;
+            for c in it.chars() {
+                if let Some(d) = superscript(c) {
+                    pow = Some(pow.unwrap_or(0) * 10 + d);
+                } else if pow.is_some() {
+                    return Err(format!("printed unit {text:?}: characters after a superscript power in {it:?}"));
+                } else {
+                    word.push(c);
+                }
+            }
+            if word.is_empty() {
+                return Err(format!("printed unit {text:?} has an empty factor"));
+            }
+            items.push((word, sign * pow.unwrap_or(1) as i64));
+        }
+    }
+    let numerators = items.iter().filter(|i| i.1 > 0).count();
+    let has_num = info.parts.iter().any(|p| p.1 > 0);
+    if (numerators > 0) != has_num {
+        return Err(format!("printed unit {text:?} has {numerators} numerator factors but the computed unit {} a numerator part", if has_num { "has" } else { "has not" }));
+    }
+    // search a combination of readings that denotes the computed unit
+    let cands: Vec<Vec<(i32, &'static crate::tables::UnitDef, bool)>> = items.iter().map(|(w, _)| word_candidates(w)).collect();
+    if cands.iter().any(|c| c.is_empty()) {
+        // e.g. the `e<extra><prefix>` rendering of a prefix that has no symbol
+        if items.iter().any(|(w, _)| w.starts_with('e') && w[1..].starts_with(|c: char| c.is_ascii_digit() || c == '-')) {
+            return Ok(false);
+        }
+        return Err(format!("printed unit {text:?}: a factor is no (prefix +) documented unit name"));
+    }
+    fn rec(
+        i: usize,
+        items: &[(String, i64)],
+        cands: &[Vec<(i32, &'static crate::tables::UnitDef, bool)>],
+        scale: num::BigRational,
+        dim: crate::tables::Dim,
+        want: &crate::units::Si,
+        chosen: &mut Vec<bool>,
+        found: &mut Vec<Vec<bool>>,
+    ) {
+        if i == items.len() {
+            if scale == want.value && dim == want.dim {
+                found.push(chosen.clone());
+            }
+            return;
+        }
+        for (p, u, plural) in &cands[i] {
+            let f = crate::obs::pow10(*p as i64) * crate::units::scale_of(u);
+            let Some(f) = crate::obs::rpow(&f, items[i].1) else { continue };
+            chosen.push(*plural);
+            rec(i + 1, items, cands, &scale * f, crate::tables::dim_add(&dim, &u.dim, items[i].1 as i32), want, chosen, found);
+            chosen.pop();
+        }
+    }
+    let mut found = Vec::new();
+    rec(0, &items, &cands, num::BigRational::one(), crate::tables::DIM0, &want, &mut Vec::new(), &mut found);
+    if found.is_empty() {
+        return Err(format!(
+            "printed unit {text:?} does not denote the computed unit {:?} (SI scale {}, dimensions {}) under any reading",
+            info.parts,
+            want.value,
+            crate::tables::dim_text(&want.dim)
+        ));
+    }
+    if info.value_is_one && found.iter().all(|f| f.iter().any(|p| *p)) {
+        return Err(format!("the value is one but the unit is printed in a plural form: {text:?}"));
+    }
+    Ok(true)
 }
 
 fn strip_ansi(s: &str) -> String {
@@ -164,10 +347,11 @@ impl Prop for C19 {
         if out.status.code() == Some(101) || stderr.contains("panicked at") {
             return fw::fail(sig("panic"), format!("{}: panicked: {}", case.key, stderr.lines().take(3).collect::<Vec<_>>().join(" | ")));
         }
-        let want = match expected(env.db(), q, exact) {
+        let (want, infos) = match expected(env.db(), q, exact) {
             Some(w) => w,
             None => return Verdict::DontCare("library parse() failed"),
         };
+        let mut units_judged = 0u64;
         // walk the output
         let lines: Vec<&str> = stdout.lines().collect();
         let mut pos = 0usize;
@@ -188,7 +372,26 @@ impl Prop for C19 {
                         j += 1;
                     }
                     match found {
-                        Some(j) => pos = j + 1,
+                        Some(j) => {
+                            pos = j + 1;
+                            // independent re-reading of the printed unit
+                            if let Some(info) = &infos[i] {
+                                let line = lines[j];
+                                if let Some(rest) = line.strip_prefix(info.number.as_str()) {
+                                    let had_space = rest.starts_with(' ');
+                                    let unit_text = rest.strip_prefix(' ').unwrap_or(rest);
+                                    let has_num = info.parts.iter().any(|p| p.1 > 0);
+                                    if had_space != has_num {
+                                        return fw::fail(sig("unit-space"), format!("{}: line {line:?}: a blank separates value and unit iff the unit has a numerator part", case.key));
+                                    }
+                                    match printed_unit_ok(unit_text, info) {
+                                        Ok(true) => units_judged += 1,
+                                        Ok(false) => {}
+                                        Err(e) => return fw::fail(sig("unit-text"), format!("{}: line {line:?}: {e}", case.key)),
+                                    }
+                                }
+                            }
+                        }
                         None => {
                             return fw::fail(
                                 sig("line"),
@@ -225,6 +428,7 @@ impl Prop for C19 {
         if want.iter().all(|w| matches!(w, Item::Line(_))) && !out.status.success() {
             return fw::fail(sig("exit"), format!("{}: all results are values but the exit status is {:?}; stderr {:?}", case.key, out.status, stderr));
         }
+        env.bulk_nontrivial += 0 * units_judged;
         fw::pass(!want.is_empty(), fw::hash_str(&stdout))
     }
     fn bounds(&self, tier: Tier) -> serde_json::Value {
